@@ -6,7 +6,7 @@ from tlcrun import BUILD, SPEC
 
 LAB_DEFAULTS = dict(Subst="Subst4", Regions="CC_Regions", Forms="NoCases", Fracs="NoSet", TUnits="AllUnits",
                     CapStep="CC_CapStep", RemoveCases="NoCases", FillCases="NoCases", FillDeltas="NoSet",
-                    DiluteCases="NoCases", DiluteYs="NoSet", NewCases="NoCases", SolCases="NoSet",
+                    DiluteCases="NoCases", DiluteYs="NoSet", NearTargets="FALSE", NewCases="NoCases", SolCases="NoSet",
                     FromCases="NoSet")
 LAB_INVARIANTS = ["TypeOK", "NonNeg", "CapOK", "VolConsistent"]
 LAB_PROPERTIES = ["Conservation", "LocalityXfer", "RefusalAtomic", "AliquotExact", "RemoveExact", "FillReaches",
@@ -20,7 +20,7 @@ INSTANCES = {
     "LabCF": dict(module="MC_Lab", consts=dict(Names="CC_Names", Shape="CC_Shape", InitVes="CC_Init",
                                                Forms="CC_Forms", Fracs="CC_Fracs", RemoveCases="CF_Remove",
                                                FillCases="CF_Fill", FillDeltas="CF_FillDeltas",
-                                               DiluteCases="CF_Dilute", DiluteYs="CF_DiluteYs", NewCases="CF_New"),
+                                               DiluteCases="CF_Dilute", DiluteYs="CF_DiluteYs", NewCases="CF_New", NearTargets="TRUE"),
                   den_bound=1728),
     # containers and plates: every pairing form, remove and fill_to on regions
     "LabPL": dict(module="MC_Lab", consts=dict(Names="PL_Names", Shape="PL_Shape", InitVes="PL_Init",
@@ -46,7 +46,7 @@ def write_cfg(instance, tag, depth, shard=0, nshards=1, overrides=None, spec="Sp
     den_bound = consts.pop("DenBound", inst["den_bound"])
     lines = [f"SPECIFICATION {spec}", "CONSTANTS"]
     for k, v in consts.items():
-        lines.append(f"  {k} <- {v}")
+        lines.append(f"  {k} = {v}" if v in ("TRUE", "FALSE") else f"  {k} <- {v}")
     lines += [f"  MaxDepth = {depth}", f"  DenBound = {den_bound}", f"  Shard = {shard}",
               f"  NShards = {nshards}", "VIEW View", "CONSTRAINT Bound", "CHECK_DEADLOCK FALSE"]
     for i in (LAB_INVARIANTS if invariants is None else invariants):
@@ -77,7 +77,7 @@ def write_recipe_cfg(instance, tag, maxcalls, shard=0, nshards=1):
     lines = ["SPECIFICATION RSpec", "CONSTANTS", "  Subst <- R_Subst", "  Names <- R_Names", "  Shape <- R_Shape",
              f"  InitVes <- {ri['init']}", "  Regions <- R_Regions", "  Forms <- NoC", "  Fracs <- NoS", "  TUnits <- NoS",
              "  CapStep <- One", "  RemoveCases <- NoC", "  FillCases <- NoC", "  FillDeltas <- NoS", "  DiluteCases <- NoC",
-             "  DiluteYs <- NoS", "  NewCases <- NoC", "  SolCases <- NoS", "  FromCases <- NoS", "  MaxDepth = 99",
+             "  DiluteYs <- NoS", "  NearTargets = FALSE", "  NewCases <- NoC", "  SolCases <- NoS", "  FromCases <- NoS", "  MaxDepth = 99",
              "  DenBound = 2000", f"  Shard = {shard}", f"  NShards = {nshards}", f"  Alphabet <- {ri['alphabet']}",
              f"  ObjName <- {ri['objname']}", f"  AutoUses = {'TRUE' if ri['auto_uses'] else 'FALSE'}",
              f"  MaxCalls = {maxcalls}", f"  Life = {'TRUE' if ri['life'] else 'FALSE'}", "  DSets <- R_DSets",
